@@ -102,7 +102,7 @@ def run(chk):
     icases = [("debload", [b]) for b in bufs]
     mcases = [("debload", [b] + t) for b, t in zip(bufs, tables)]
     impl = chk.run_impl(icases); model = chk.run_model(mcases)
-    chk.compare("well-formed-packages", mcases, impl, model, kernel=False)
+    chk.compare("well-formed-packages", mcases, impl, model)
     for c, i, (b, info) in zip(icases, impl, pkgs):
         if info is not None:
             check_loaded(chk, c, i, info)
@@ -125,7 +125,7 @@ def run(chk):
     bbufs = [b for b, _ in bad]
     tables, _ = oracle_args(chk, bbufs)
     bi = chk.run_impl([("debload", [b]) for b in bbufs]); bm = chk.run_model([("debload", [b] + t) for b, t in zip(bbufs, tables)])
-    chk.compare("malformed-packages", [("debload", [b] + t) for b, t in zip(bbufs, tables)], bi, bm, nontrivial=lambda c, r: True, kernel=False)
+    chk.compare("malformed-packages", [("debload", [b] + t) for b, t in zip(bbufs, tables)], bi, bm, nontrivial=lambda c, r: True)
     for (b, why), i in zip(bad, bi):
         if i != "err":
             chk.violate({"kind": "property", "case": lib.show_case(("debload", [b"<%d bytes>" % len(b)])), "impl": i[:300],
